@@ -100,6 +100,9 @@ def decode(
     except (TypeError, ValueError, RecursionError):
         raise InvalidPayloadError()
 
+    if not isinstance(claims, dict):
+        # the claims set of a JWT is a JSON object
+        raise InvalidPayloadError()
     return Token(header, claims)
 
 
